@@ -265,36 +265,37 @@ theorem nextPrefix_some_iff {p : List Nat} (hv : validUtf8 p = true) (hp : p ≠
       (validUtf8_snoc q (b + 1)).mpr ⟨st, hq, u8step_succ hst h1 h2⟩
     exact ⟨by simp [nextPrefix, hinc, hvv], h1, h2⟩
 
-/-! ### `MetadataSlab::scan` on a bounded prefix is `starts_with` -/
+/-! ### `MetadataSlab::scan` is `starts_with` -/
 
-theorem mdMatch_eq_pmatch {p : List Nat} (hb : boundedPrefix p = true) (k : Key) :
-    mdMatch p k = pmatch p k := by
+/-- the code before 27855097, on a prefix with an end key -/
+theorem mdMatchOld_eq_pmatch {p : List Nat} (hb : boundedPrefix p = true) (k : Key) :
+    mdMatchOld p k = pmatch p k := by
   by_cases hp : p = []
-  · subst hp; simp [mdMatch, pmatch, isPfx_nil_left]
+  · subst hp; simp [mdMatchOld, pmatch, isPfx_nil_left]
   · obtain ⟨hv, hsome⟩ : validUtf8 p = true ∧ (nextPrefix p).isSome = true := by
       cases p with
       | nil => exact absurd rfl hp
       | cons x p => simpa [boundedPrefix] using hb
     obtain ⟨q, b, rfl, h⟩ := nextPrefix_some_iff hv hp
     rcases h with ⟨hn, _, _⟩ | ⟨hn, _⟩
-    · simp only [mdMatch, hp, if_false, hn, pmatch, range_succ_last]
+    · simp only [mdMatchOld, hp, if_false, hn, pmatch, range_succ_last]
       cases hpk : isPfx (q ++ [b]) k.bytes with
       | false => simp
       | true => simp [shardOf_of_isPfx hp hpk]
     · rw [hn] at hsome; simp at hsome
 
-/-- the repaired scan is `starts_with` on every prefix that is a string -/
-theorem mdMatchFixed_eq_pmatch {p : List Nat} (hv : validUtf8 p = true) (k : Key) :
-    mdMatchFixed p k = pmatch p k := by
+/-- the code: `starts_with` on every prefix that is a string -/
+theorem mdMatch_eq_pmatch {p : List Nat} (hv : validUtf8 p = true) (k : Key) :
+    mdMatch p k = pmatch p k := by
   by_cases hp : p = []
-  · subst hp; simp [mdMatchFixed, pmatch, isPfx_nil_left]
+  · subst hp; simp [mdMatch, pmatch, isPfx_nil_left]
   · obtain ⟨q, b, rfl, h⟩ := nextPrefix_some_iff hv hp
     rcases h with ⟨hn, _, _⟩ | ⟨hn, _⟩
-    · simp only [mdMatchFixed, hp, if_false, hn, pmatch, range_succ_last]
+    · simp only [mdMatch, hp, if_false, hn, pmatch, range_succ_last]
       cases hpk : isPfx (q ++ [b]) k.bytes with
       | false => simp
       | true => simp [shardOf_of_isPfx hp hpk]
-    · simp only [mdMatchFixed, hp, if_false, hn, pmatch]
+    · simp only [mdMatch, hp, if_false, hn, pmatch]
       cases hpk : isPfx (q ++ [b]) k.bytes with
       | false => simp
       | true => simp [shardOf_of_isPfx hp hpk, bleq_of_isPfx hpk]
